@@ -47,7 +47,7 @@ try:
                 if os.path.isfile(os.path.join(src, f)) and f.endswith(".go"):
                     shutil.copy(os.path.join(src, f), os.path.join(wt, copy_to, f))
     place()
-    run = run.replace("/tmp/mut3-%s" % prop, wt).replace("/tmp/mut2-%s" % prop, wt).replace("/tmp/mut-%s" % prop, wt)
+    run = run.replace("/tmp/mut4-%s" % prop, wt).replace("/tmp/mut3-%s" % prop, wt).replace("/tmp/mut2-%s" % prop, wt).replace("/tmp/mut-%s" % prop, wt)
     res["demo_cmd"] = run
     rc0, out0 = sh(run, cwd=wt, timeout=900)
     rc0 = 1 if demo_failed(rc0, out0) else 0
@@ -72,8 +72,9 @@ try:
     res["checks"] = {}
     for c in checks:
         t = time.time()
-        p = subprocess.run("VERIF_REPO=%s python3 /verif/bin/check %s --tier quick" % (wt, c), shell=True, capture_output=True, timeout=3000,
-                           cwd="/verif", env=dict(env, VERIF_SCRATCH_BASE="/tmp"))
+        snap = os.environ.get("VERIF_SNAP", "/verif")   # a frozen copy of /verif while /verif itself is being edited
+        p = subprocess.run("VERIF_REPO=%s python3 %s/bin/check %s --tier quick" % (wt, snap, c), shell=True, capture_output=True, timeout=3000,
+                           cwd=snap, env=dict(env, VERIF_SCRATCH_BASE="/tmp"))
         viol = [l for l in p.stdout.decode("utf-8", "replace").splitlines() if l.startswith("VIOLATION")]
         res["checks"][c] = {"exit": p.returncode, "violations": viol[:6], "wall_s": round(time.time() - t)}
     res["detected_by"] = [c for c, r in res["checks"].items() if r["exit"] == 1]
@@ -87,7 +88,7 @@ if res.get("confirmed"):
         if f.startswith("demo"):
             p = os.path.join(src, f)
             shutil.copytree(p, os.path.join(dst, f), dirs_exist_ok=True) if os.path.isdir(p) else shutil.copy(p, dst)
-    json.dump({"property": prop, "breaks": meta.get("summary"), "needs_to_manifest": meta.get("needs_to_manifest"),
+    json.dump({"property": prop, "breaks": meta.get("breaks") or meta.get("summary"), "needs_to_manifest": meta.get("needs_to_manifest"),
                "files": meta.get("files"), "demo": meta.get("demo"),
                "confirmed": {"demo_passes_on_clean_tree": True, "demo_fails_with_patch": True, "builds": True,
                              "repository_suite_green_with_patch": True, "suite_seconds": res["suite_s"]},
